@@ -290,8 +290,36 @@ func solveOne(ob *Obligation, cfg SolverCfg) {
 			}
 		}
 		if st == "unsat" {
-			ob.Status = "vacuous"
-			return
+			// a refutation counts only when it is reproduced: the same query on z3 with another
+			// seed, on cvc5 with another seed, or on the old z3 (a genuine inconsistency is found
+			// again at once; a one-off answer is recorded but raises no alarm)
+			confirm := []solver{
+				{"z3-new/seed1", func(ms int, f string) []string {
+					return []string{"z3-new", fmt.Sprintf("-T:%d", (ms+999)/1000), "smt.random_seed=1", f}
+				}},
+				{"cvc5/seed1", func(ms int, f string) []string {
+					return []string{"cvc5", fmt.Sprintf("--tlimit=%d", ms), "--seed=1", "--lang=smt2", f}
+				}},
+				solvers[2],
+			}
+			confirmed := false
+			for _, alt := range confirm {
+				st2, out2, secs2 := runSolver(alt, fname, 10*time.Second)
+				ob.Seconds += secs2
+				ob.Output += fmt.Sprintf("\n[confirm %s: %s in %.2fs] %s", alt.name, st2, secs2, firstLines(out2, 3))
+				if st2 == "unsat" {
+					confirmed = true
+					break
+				}
+				if st2 == "sat" {
+					break
+				}
+			}
+			if confirmed {
+				ob.Status = "vacuous"
+				return
+			}
+			st = "refuted-once-not-reproduced"
 		}
 		ob.Status, ob.Backend = "unsat", "cover:"+st
 		if !cfg.KeepAll {
